@@ -410,9 +410,9 @@ def _check_backup(case, res):
 
 def check_case(case) -> Result:
     res = Result()
-    if case["part"] == "backup":
-        return _check_backup(case, res)
-    return _check_normalizer(case, res)
+    res = _check_backup(case, res) if case["part"] == "backup" else _check_normalizer(case, res)
+    res.classes = list(dict.fromkeys(res.classes))  # one count per case and label
+    return res
 
 
 def _strategy():
@@ -432,7 +432,7 @@ def _strategy():
         ext = draw(st.sampled_from(["none", "legacy", "mixed"]))
         docs = draw(docgen.runs(external=ext, max_streams=2, max_events=4, omit_filled=False, min_events=1))
         n = len(docs)
-        fail_at = sorted(set(draw(st.lists(st.integers(0, n + 2), max_size=3))))
+        fail_at = sorted(set(draw(st.lists(st.integers(0, n + 2), min_size=draw(st.sampled_from([0, 1, 1, 1])), max_size=3))))
         case = {"part": "backup", "docs": docs, "primary": primary, "fail_at": fail_at, "n_backups": draw(st.sampled_from([1, 2]))}
         if case["n_backups"] == 2 and draw(st.booleans()):
             case["backup_fail_at"] = sorted(set(draw(st.lists(st.integers(0, n), min_size=1, max_size=3))))
